@@ -1571,10 +1571,12 @@ impl Rem<Vec4> for Vec4 {
     type Output = Self;
     #[inline]
     fn rem(self, rhs: Self) -> Self {
-        unsafe {
-            let n = vrndmq_f32(vdivq_f32(self.0, rhs.0));
-            Self(vsubq_f32(self.0, vmulq_f32(n, rhs.0)))
-        }
+        Self::new(
+            self.x % rhs.x,
+            self.y % rhs.y,
+            self.z % rhs.z,
+            self.w % rhs.w,
+        )
     }
 }
 
